@@ -789,3 +789,64 @@ func genSort(s *sink, quick bool) {
 	s.do(Case{Op: "sort", Name: "sorted", Args: []V{vRange(5, 0, -1)}, Rev: "true", Key: "mod3", Class: "sort"})
 	s.do(Case{Op: "sort", Name: "max", Args: []V{vRange(0, 7, 1)}, Key: "mod3", Class: "sort"})
 }
+
+// genIterables: every built-in / method that accepts an iterable is fed sequences
+// with a known length (list, tuple, range, str.elems(), str.elem_ords()) AND
+// length-less iterables (str.codepoints(), str.codepoint_ords(), bytes.elems()),
+// in every argument position, shorter / equal / longer than the other arguments.
+func genIterables(s *sink, quick bool) {
+	if quick {
+		s.coqEvery["iter"], s.pyEvery["iter"] = 5, 2
+	} else {
+		s.coqEvery["iter"], s.pyEvery["iter"] = 8, 2
+	}
+	mk := func(kind string, n int) V {
+		str := "abcdefgh"[:n]
+		switch kind {
+		case "list":
+			return mkSeq("list", []byte(str))
+		case "tuple":
+			return mkSeq("tuple", []byte(str))
+		case "range":
+			return vRange(0, int64(n), 1)
+		default:
+			return vIter(kind, str)
+		}
+	}
+	kinds := []string{"list", "tuple", "range", "elems", "elem_ords", "codepoints", "codepoint_ords", "belems"}
+	maxN := 3
+	for _, k := range kinds {
+		for n := 0; n <= maxN+1; n++ {
+			x := mk(k, n)
+			for _, f := range []string{"reversed", "any", "all", "enumerate", "zip", "list", "tuple"} {
+				s.do(Case{Op: "builtin", Name: f, Args: []V{x}, Class: "iter"})
+			}
+			s.do(Case{Op: "builtin", Name: "enumerate", Args: []V{x, vInt(5)}, Class: "iter"})
+			for _, key := range []string{"", "zero"} {
+				for _, rev := range []string{"", "true"} {
+					s.do(Case{Op: "sort", Name: "sorted", Args: []V{x}, Key: key, Rev: rev, Class: "iter"})
+				}
+				s.do(Case{Op: "sort", Name: "min", Args: []V{x}, Key: key, Class: "iter"})
+				s.do(Case{Op: "sort", Name: "max", Args: []V{x}, Key: key, Class: "iter"})
+			}
+			call(s, intList(7), "list", "extend", "iter", x)
+			call(s, vStr("-"), "string", "join", "iter", x)
+			// two and three arguments, every pair of kinds, every pair of lengths
+			for _, k2 := range kinds {
+				for n2 := 0; n2 <= maxN; n2++ {
+					y := mk(k2, n2)
+					s.do(Case{Op: "builtin", Name: "zip", Args: []V{x, y}, Class: "iter"})
+					if quick && (n+n2)%2 == 1 {
+						continue
+					}
+					for _, k3 := range []string{"list", "codepoints", "belems", "range"} {
+						for _, n3 := range []int{0, 1, 3} {
+							z := mk(k3, n3)
+							s.do(Case{Op: "builtin", Name: "zip", Args: []V{x, y, z}, Class: "iter"})
+						}
+					}
+				}
+			}
+		}
+	}
+}
